@@ -59,6 +59,18 @@ def anchor_files(prop, src):
         files += ['ArrayTransforms.py', 'camxfiles/timetuple.py']
     if prop == 'C18':
         files += ['geoschemfiles/_bpchmaster.py']
+    if prop in ('C01', 'C02', 'C05'):
+        files += ['core/_variables.py', 'core/_dimensions.py']
+    if prop == 'C15':
+        # every module that defines a sniffer takes part in auto-detection
+        for r in src.relpaths():
+            try:
+                if 'def isMine' in src.text(r):
+                    files.append(r)
+            except Exception:
+                pass
+    if prop == 'C13':
+        files += ['camxfiles/FortranFileUtil.py']
     out = []
     for f in files:
         if f.endswith('.py') and f not in out:
@@ -238,6 +250,92 @@ def sibling_slips(fn):
     return res
 
 
+def class_state_writes(m):
+    """class attributes bound to a mutable literal that a method changes through `self` without first re-binding them on the instance:
+    every instance of the class (every open file) shares the one object.  -> [(class, method, attr, node)]"""
+    out = []
+    for node in ast.walk(m.tree):
+        if not isinstance(node, ast.ClassDef):
+            continue
+        mut = {}
+        for st in node.body:
+            if isinstance(st, ast.Assign) and len(st.targets) == 1 and isinstance(st.targets[0], ast.Name):
+                v = st.value
+                if isinstance(v, (ast.Dict, ast.List, ast.Set)) or (isinstance(v, ast.Call) and dotted(v.func) in ('dict', 'list', 'set', 'OrderedDict', 'collections.OrderedDict')):
+                    mut[st.targets[0].id] = st
+        if not mut:
+            continue
+        for fn in [s_ for s_ in node.body if isinstance(s_, ast.FunctionDef)]:
+            if not fn.args.args:
+                continue
+            selfn = fn.args.args[0].arg
+            rebound = set()
+            for st in iter_stmts(fn.body):
+                if isinstance(st, ast.Assign):
+                    for t in st.targets:
+                        if isinstance(t, ast.Attribute) and isinstance(t.value, ast.Name) and t.value.id == selfn and t.attr in mut:
+                            rebound.add(t.attr)
+            # local names that are plain aliases of such an attribute (x = self.attr)
+            alias = {}
+            for st in iter_stmts(fn.body):
+                if isinstance(st, ast.Assign) and len(st.targets) == 1 and isinstance(st.targets[0], ast.Name) and isinstance(st.value, ast.Attribute) \
+                        and isinstance(st.value.value, ast.Name) and st.value.value.id in (selfn, node.name) and st.value.attr in mut and st.value.attr not in rebound:
+                    alias[st.targets[0].id] = st.value.attr
+            for n in ast.walk(fn):
+                tgt = None
+                if isinstance(n, ast.Subscript) and isinstance(n.ctx, (ast.Store, ast.Del)):
+                    tgt = n.value
+                elif isinstance(n, ast.Call) and isinstance(n.func, ast.Attribute) and n.func.attr in MUTATORS:
+                    tgt = n.func.value
+                elif isinstance(n, ast.AugAssign):
+                    tgt = n.target
+                if isinstance(tgt, ast.Attribute) and isinstance(tgt.value, ast.Name) and tgt.value.id in (selfn, node.name) and tgt.attr in mut and tgt.attr not in rebound:
+                    out.append((node.name, fn.name, tgt.attr, n))
+                elif isinstance(tgt, ast.Name) and tgt.id in alias:
+                    out.append((node.name, fn.name, alias[tgt.id], n))
+    return out
+
+
+def numeric_param(fn, p):
+    """is parameter p used as a number somewhere in fn (arithmetic, ordering comparison, index, numpy / timetuple call argument)?"""
+    for n in ast.walk(fn):
+        if isinstance(n, ast.BinOp) and not isinstance(n.op, ast.Mod) and any(isinstance(x, ast.Name) and x.id == p for x in (n.left, n.right)):
+            return True
+        if isinstance(n, ast.Compare) and any(isinstance(o, (ast.Lt, ast.LtE, ast.Gt, ast.GtE)) for o in n.ops) and any(isinstance(x, ast.Name) and x.id == p for x in [n.left] + n.comparators):
+            return True
+        if isinstance(n, ast.Call) and ((dotted(n.func) or '').startswith('np.') or dotted(n.func) in ('timediff', 'timeadd', 'timerange', 'range', 'slice', 'int', 'float', 'abs')):
+            for a in n.args:
+                if any(isinstance(x, ast.Name) and x.id == p for x in ast.walk(a)):
+                    return True
+        if isinstance(n, ast.Subscript) and any(isinstance(x, ast.Name) and x.id == p for x in ast.walk(n.slice)):
+            return True
+    return False
+
+
+def truthy_numeric_defaults(fn):
+    """`p = p or default` / `if not p: p = default` on a None-default parameter that is used as a number: 0 is a value, not absent"""
+    a = fn.args
+    pos = a.posonlyargs + a.args
+    nd = [p_.arg for p_, d in list(zip(pos[len(pos) - len(a.defaults):], a.defaults)) + [(p_, d) for p_, d in zip(a.kwonlyargs, a.kw_defaults) if d is not None]
+          if isinstance(d, ast.Constant) and d.value is None]
+    if not nd:
+        return []
+    return [(st, [n_ for n_ in nd if n_ in norm(st)][0]) for st in lints.truthy_optional_guards(fn, tuple(nd))
+            if any(numeric_param(fn, n_) and 'date' not in n_.lower() for n_ in nd if n_ in [x.id for x in ast.walk(st) if isinstance(x, ast.Name)])]
+
+
+def broken_swaps(fn):
+    """X[i] = X[j] immediately followed by X[j] = X[i] on the same container: the second statement reads the value the first just wrote"""
+    out = []
+    for blk in [fn.body] + [getattr(s_, f_) for s_ in ast.walk(fn) for f_ in ('body', 'orelse') if isinstance(getattr(s_, f_, None), list) and s_ is not fn]:
+        for a, b in zip(blk, blk[1:]):
+            if isinstance(a, ast.Assign) and isinstance(b, ast.Assign) and len(a.targets) == 1 and len(b.targets) == 1 \
+                    and isinstance(a.targets[0], ast.Subscript) and isinstance(b.targets[0], ast.Subscript) and isinstance(a.value, ast.Subscript) and isinstance(b.value, ast.Subscript):
+                if norm(a.targets[0]) == norm(b.value) and norm(a.value) == norm(b.targets[0]) and norm(a.targets[0]) != norm(a.value):
+                    out.append((a, b))
+    return out
+
+
 def pure_method_names(src):
     """names that are methods of some class of the package and are nowhere a property, a class-level value or an assigned attribute"""
     methods, other = set(), set()
@@ -275,6 +373,9 @@ def run(ctx):
                  ('R-CALLED', 'no bound method is used as a truth value / flag without being called'),
                  ('R-ONESHOT', 'no one-shot iterator (generator, map, filter, zip) is consumed twice or inside a loop body'),
                  ('R-MODSTATE', 'no anchored function assigns a module global or mutates a module-level container (registration points frozen)'),
+                 ('R-CLASSSTATE', 'no method changes a mutable class-level attribute through self (shared by all instances) without re-binding it on the instance'),
+                 ('R-NONEGUARD', 'an optional parameter that is used as a number is tested with `is None`, never by truthiness (0 is a value)'),
+                 ('R-SWAP', 'no two-statement swap through the container itself (x[i] = x[j]; x[j] = x[i])'),
                  ('R-SIBLING', 'neighbouring statements that differ by one role swap (x/y, COL/ROW, tau0/tau1, llod/ulod, B/E) are adapted in every leaf')):
         if r not in ctx.rules:
             ctx.rule(r, d)
@@ -285,6 +386,10 @@ def run(ctx):
             m = src.mod(rp)
         except AnalysisError:
             raise
+        for cname, mname, attr, node in class_state_writes(m):
+            from . import api
+            ctx.violation(Finding('R-CLASSSTATE', rp, '%s.%s' % (cname, mname), api.stmt_of(node), '%s.%s is a mutable object created once in the class body and %s changes it through self: all instances (all open files, '
+                                  'all conversions in the process) share it, so what one leaves there shows up in the next' % (cname, attr, mname)), oid='generic:%s.%s:%s' % (cname, mname, attr))
         for q, fn in sorted(m.functions.items()):
             if _skip(q):
                 continue
@@ -314,12 +419,18 @@ def run(ctx):
             for s1, s2, fam, bad in sibling_slips(fn):
                 ctx.violation(Finding('R-SIBLING', rp, q, s2, 'this statement mirrors `%s` with %s swapped for %s, but %r was left as it is: the %s value is computed from the %s input' % (
                     norm(s1)[:50], fam[0], fam[1], bad[0][1], fam[1], fam[0])), oid='generic:%s:%s' % (q, norm(s2)[:40]))
+            for st, pn in truthy_numeric_defaults(fn):
+                ctx.violation(Finding('R-NONEGUARD', rp, q, st, 'the optional parameter %s is defaulted by truthiness (%s) although it is used as a number: a requested 0 (midnight, first layer, empty length) '
+                                      'is silently replaced by the default' % (pn, norm(st)[:50])), oid='generic:%s:%s' % (q, pn))
+            for a_, b_ in broken_swaps(fn):
+                ctx.violation(Finding('R-SWAP', rp, q, b_, '`%s` follows `%s`: it reads the element the first statement has just overwritten, so both positions end up with the same value' % (norm(b_)[:40], norm(a_)[:40])),
+                              oid='generic:%s:%s' % (q, norm(b_)[:40]))
             for g, st, use in oneshot_reuse(fn):
                 from . import api
                 ctx.violation(Finding('R-ONESHOT', rp, q, api.stmt_of(use), '%s is a one-shot iterator (%s) and is consumed again here: the second pass sees nothing' % (g, norm(st.value)[:40])),
                               oid='generic:%s:%s' % (q, g))
     ok_note = '%d functions, %d parameters in %d anchored files' % (nfun, npar, len(files))
-    for r in ('R-PARAMUSED', 'R-NOSTATE', 'R-ELEMENTWISE', 'R-CALLED', 'R-ONESHOT', 'R-MODSTATE', 'R-SIBLING'):
+    for r in ('R-PARAMUSED', 'R-NOSTATE', 'R-ELEMENTWISE', 'R-CALLED', 'R-ONESHOT', 'R-MODSTATE', 'R-SIBLING', 'R-CLASSSTATE', 'R-NONEGUARD', 'R-SWAP'):
         if not any(o['rule'] == r and o['status'] == 'violated' and str(o.get('id', '')).startswith('generic:') for o in ctx.obligations):
             ctx.ok(r, 'generic:%s' % r, 'anchored files of %s' % ctx.prop, ok_note)
     ctx.count('functions under the generic rules', nfun)
